@@ -1,0 +1,17 @@
+// SPDX-FileCopyrightText: 2026 The Pion community <https://pion.ly>
+// SPDX-License-Identifier: MIT
+
+//go:build verif
+
+package jitterbuffer
+
+// VerifC11Stream reports on the interceptor's (single, shared) jitter buffer:
+// exists = it holds state, fresh = it is in its initial state (lifecycle check C11).
+func (i *ReceiverInterceptor) VerifC11Stream(_ uint32) (exists, fresh bool) {
+	i.m.Lock()
+	defer i.m.Unlock()
+
+	fresh = i.buffer.packets.Length() == 0 && i.buffer.state == Buffering && !i.buffer.playoutReady
+
+	return !fresh, fresh
+}
